@@ -99,10 +99,9 @@ def run_hist(ctx, hists, name):
         oc, ow = ctx.path("histc-%s-%d.ndjson" % (name, k)), ctx.path("histw-%s-%d.ndjson" % (name, k))
         cf.append(oc)
         wf.append(ow)
-        procs.append(subprocess.Popen([drv, "hist", "-seed", str(ctx.seed), "-scen", sf, "-outc", oc, "-outw", ow, "-shard", str(k), "-shards", str(shards)],
-                                      cwd=ctx.scratch, env=ctx.env, stdout=subprocess.PIPE, stderr=subprocess.PIPE, text=True))
+        procs.append(ctx.spawn([drv, "hist", "-seed", str(ctx.seed), "-scen", sf, "-outc", oc, "-outw", ow, "-shard", str(k), "-shards", str(shards)]))
     for p in procs:
-        o_, e = p.communicate(timeout=3000)
+        rc_, o_, e = ctx.wait(p)
         if p.returncode != 0:
             raise Undecided("hist driver failed: " + (e or o_)[-1500:])
     return [f for f in cf if os.path.getsize(f) > 0], [f for f in wf if os.path.getsize(f) > 0]
